@@ -162,7 +162,11 @@ func inlineNewHelpers(repo string) inlineResult {
 						}
 						src = b
 					}
-					out, n := methodValuesToClosures(p, f, src)
+					// (unrolling comes first: bodies of inlined helpers carry labels, which must not be duplicated)
+					out, n := unrollSmallRanges(p, f, src, counts)
+					if n == 0 {
+						out, n = methodValuesToClosures(p, f, src)
+					}
 					if n == 0 {
 						out, n = substExprHelpers(p, f, src, counts)
 					}
@@ -1981,6 +1985,319 @@ func splitLocalStructs(p *packages.Package, f *ast.File, src []byte, counts map[
 		counts["split local struct "+c.name]++
 		n++
 	}
+	if n == 0 {
+		return src, 0
+	}
+	return applyEdits(src, edits), n
+}
+
+// unrollSmallRanges: `for i, v := range <composite literal of ≤ 4 elements>` (written in place, or held by a local variable that
+// is used for nothing else) is replaced by one copy of the body per element, each in its own block with `i := <k>` and
+// `v := <element k>`. Behaviour is unchanged when the elements are pure and stable (constants, never-reassigned locals and
+// parameters, operators, conversions, literals of those) and the body has no break/continue/goto/label/defer/go/closure of
+// its own level: the literal's elements are then evaluated to the same values wherever they are written. Table-driven code
+// (`steps := [...]struct{state State; delta uint64}{{old, ^uint64(0)}, {new, 1}}; for _, s := range steps {…}`) thereby
+// becomes the straight-line code the rules reason about.
+func unrollSmallRanges(p *packages.Package, f *ast.File, src []byte, counts map[string]int) ([]byte, int) {
+	fset := p.Fset
+	off := func(pos token.Pos) int { return fset.Position(pos).Offset }
+	text := func(n ast.Node) string { return string(src[off(n.Pos()):off(n.End())]) }
+	info := p.TypesInfo
+	// variables assigned after their declaration, or whose address is taken, anywhere in the file
+	unstable := map[types.Object]bool{}
+	ast.Inspect(f, func(n ast.Node) bool {
+		switch x := n.(type) {
+		case *ast.AssignStmt:
+			if x.Tok != token.DEFINE {
+				for _, l := range x.Lhs {
+					if id, ok := l.(*ast.Ident); ok {
+						unstable[info.Uses[id]] = true
+					}
+				}
+			} else {
+				for _, l := range x.Lhs {
+					if id, ok := l.(*ast.Ident); ok && info.Defs[id] == nil {
+						unstable[info.Uses[id]] = true // redeclared by := together with a new variable
+					}
+				}
+			}
+		case *ast.IncDecStmt:
+			if id, ok := x.X.(*ast.Ident); ok {
+				unstable[info.Uses[id]] = true
+			}
+		case *ast.UnaryExpr:
+			if x.Op == token.AND {
+				if id, ok := x.X.(*ast.Ident); ok {
+					unstable[info.Uses[id]] = true
+				}
+			}
+		case *ast.RangeStmt:
+			if x.Tok == token.ASSIGN {
+				for _, e := range []ast.Expr{x.Key, x.Value} {
+					if id, ok := e.(*ast.Ident); ok {
+						unstable[info.Uses[id]] = true
+					}
+				}
+			}
+		}
+		return true
+	})
+	var pure func(e ast.Expr) bool
+	pure = func(e ast.Expr) bool {
+		switch x := e.(type) {
+		case *ast.BasicLit:
+			return true
+		case *ast.Ident:
+			switch o := info.Uses[x].(type) {
+			case *types.Const, *types.Nil:
+				return true
+			case *types.Var:
+				return !o.IsField() && o.Parent() != p.Types.Scope() && o.Parent() != nil && !unstable[o]
+			case *types.TypeName:
+				return true
+			}
+			return false
+		case *ast.SelectorExpr:
+			if _, isConst := info.Uses[x.Sel].(*types.Const); isConst {
+				return true
+			}
+			return false
+		case *ast.ParenExpr:
+			return pure(x.X)
+		case *ast.UnaryExpr:
+			return x.Op != token.AND && x.Op != token.ARROW && pure(x.X)
+		case *ast.BinaryExpr:
+			if x.Op == token.QUO || x.Op == token.REM || x.Op == token.SHL || x.Op == token.SHR {
+				return false // may panic
+			}
+			return pure(x.X) && pure(x.Y)
+		case *ast.CallExpr:
+			// conversions only
+			if tv, ok := info.Types[x.Fun]; ok && tv.IsType() && len(x.Args) == 1 {
+				return pure(x.Args[0])
+			}
+			return false
+		case *ast.CompositeLit:
+			if _, isStruct := info.TypeOf(x).Underlying().(*types.Struct); !isStruct {
+				return false
+			}
+			for _, el := range x.Elts {
+				if kv, ok := el.(*ast.KeyValueExpr); ok {
+					if !pure(kv.Value) {
+						return false
+					}
+				} else if !pure(el) {
+					return false
+				}
+			}
+			return true
+		}
+		return false
+	}
+	// local variables holding a literal, with their declaration statement and number of uses
+	type holder struct {
+		lit  *ast.CompositeLit
+		stmt ast.Stmt
+		uses int
+	}
+	holders := map[types.Object]*holder{}
+	ast.Inspect(f, func(n ast.Node) bool {
+		switch x := n.(type) {
+		case *ast.AssignStmt:
+			if x.Tok == token.DEFINE && len(x.Lhs) == 1 && len(x.Rhs) == 1 {
+				if id, ok := x.Lhs[0].(*ast.Ident); ok {
+					if cl, isLit := x.Rhs[0].(*ast.CompositeLit); isLit && info.Defs[id] != nil {
+						holders[info.Defs[id]] = &holder{lit: cl, stmt: x}
+					}
+				}
+			}
+		case *ast.DeclStmt:
+			if gd, ok := x.Decl.(*ast.GenDecl); ok && gd.Tok == token.VAR && len(gd.Specs) == 1 {
+				vs := gd.Specs[0].(*ast.ValueSpec)
+				if len(vs.Names) == 1 && len(vs.Values) == 1 {
+					if cl, isLit := vs.Values[0].(*ast.CompositeLit); isLit && info.Defs[vs.Names[0]] != nil {
+						holders[info.Defs[vs.Names[0]]] = &holder{lit: cl, stmt: x}
+					}
+				}
+			}
+		}
+		return true
+	})
+	for id, o := range info.Uses {
+		_ = id
+		if h := holders[o]; h != nil {
+			h.uses++
+		}
+	}
+	labelled := map[ast.Stmt]bool{}
+	ast.Inspect(f, func(n ast.Node) bool {
+		if ls, ok := n.(*ast.LabeledStmt); ok {
+			labelled[ls.Stmt] = true
+		}
+		return true
+	})
+	bodyOK := func(body *ast.BlockStmt, loopVars map[types.Object]bool) bool {
+		ok := true
+		var walk func(n ast.Node, inLoop, inBreakable bool)
+		walk = func(n ast.Node, inLoop, inBreakable bool) {
+			if n == nil || !ok {
+				return
+			}
+			switch x := n.(type) {
+			case *ast.FuncLit, *ast.DeferStmt, *ast.GoStmt, *ast.LabeledStmt:
+				ok = false
+				return
+			case *ast.BranchStmt:
+				switch {
+				case x.Label != nil, x.Tok == token.GOTO:
+					ok = false
+				case x.Tok == token.CONTINUE && !inLoop:
+					ok = false
+				case x.Tok == token.BREAK && !inBreakable:
+					ok = false
+				}
+				return
+			case *ast.UnaryExpr:
+				if id, isId := x.X.(*ast.Ident); isId && x.Op == token.AND && loopVars[info.Uses[id]] {
+					ok = false
+					return
+				}
+			case *ast.ForStmt:
+				walk(x.Init, inLoop, inBreakable)
+				walk(x.Cond, inLoop, inBreakable)
+				walk(x.Post, inLoop, inBreakable)
+				walk(x.Body, true, true)
+				return
+			case *ast.RangeStmt:
+				walk(x.X, inLoop, inBreakable)
+				walk(x.Body, true, true)
+				return
+			case *ast.SwitchStmt:
+				walk(x.Init, inLoop, inBreakable)
+				walk(x.Tag, inLoop, inBreakable)
+				walk(x.Body, inLoop, true)
+				return
+			case *ast.TypeSwitchStmt:
+				walk(x.Body, inLoop, true)
+				return
+			case *ast.SelectStmt:
+				walk(x.Body, inLoop, true)
+				return
+			}
+			ast.Inspect(n, func(c ast.Node) bool {
+				if c == n || c == nil {
+					return c == n
+				}
+				walk(c, inLoop, inBreakable)
+				return false
+			})
+		}
+		walk(body, false, false)
+		return ok
+	}
+	var edits []edit
+	n := 0
+	ast.Inspect(f, func(nd ast.Node) bool {
+		rs, ok := nd.(*ast.RangeStmt)
+		if !ok || n > 0 || rs.Tok != token.DEFINE || labelled[rs] {
+			return true
+		}
+		var lit *ast.CompositeLit
+		var drop ast.Stmt
+		switch x := rs.X.(type) {
+		case *ast.CompositeLit:
+			lit = x
+		case *ast.Ident:
+			if h := holders[info.Uses[x]]; h != nil && h.uses == 1 && !unstable[info.Uses[x]] {
+				lit, drop = h.lit, h.stmt
+			}
+		}
+		if lit == nil || len(lit.Elts) == 0 || len(lit.Elts) > 4 {
+			return true
+		}
+		at, isArr := lit.Type.(*ast.ArrayType)
+		if !isArr {
+			return true
+		}
+		switch info.TypeOf(lit).Underlying().(type) {
+		case *types.Array, *types.Slice:
+		default:
+			return true
+		}
+		if _, isPtr := at.Elt.(*ast.StarExpr); isPtr {
+			return true
+		}
+		for _, el := range lit.Elts {
+			if _, isKV := el.(*ast.KeyValueExpr); isKV {
+				return true
+			}
+			if cl, isCL := el.(*ast.CompositeLit); isCL && cl.Type == nil {
+				// elided element type: judged with the array's element type in front
+				if _, isStruct := info.TypeOf(cl).Underlying().(*types.Struct); !isStruct {
+					return true
+				}
+			}
+			if !pure(el) {
+				return true
+			}
+		}
+		loopVars := map[types.Object]bool{}
+		keyName, valName := "", ""
+		if id, isId := rs.Key.(*ast.Ident); isId && id.Name != "_" {
+			keyName = id.Name
+			loopVars[info.Defs[id]] = true
+		} else if rs.Key != nil && !isId {
+			return true
+		}
+		if id, isId := rs.Value.(*ast.Ident); isId && id.Name != "_" {
+			valName = id.Name
+			loopVars[info.Defs[id]] = true
+		} else if rs.Value != nil && !isId {
+			return true
+		}
+		if !bodyOK(rs.Body, loopVars) {
+			return true
+		}
+		elt := text(at.Elt)
+		usedInBody := map[string]bool{}
+		ast.Inspect(rs.Body, func(c ast.Node) bool {
+			if id, isId := c.(*ast.Ident); isId && loopVars[info.Uses[id]] {
+				usedInBody[id.Name] = true
+			}
+			return true
+		})
+		keep := func(name string) string {
+			if usedInBody[name] {
+				return "" // (a blank use would count as a use of the whole variable and stop it from being split)
+			}
+			return "_ = " + name + "; "
+		}
+		var sb strings.Builder
+		sb.WriteString("{ ")
+		for k, el := range lit.Elts {
+			sb.WriteString("{ ")
+			if keyName != "" {
+				fmt.Fprintf(&sb, "%s := %d; %s", keyName, k, keep(keyName))
+			}
+			if valName != "" {
+				if cl, isCL := el.(*ast.CompositeLit); isCL && cl.Type == nil {
+					fmt.Fprintf(&sb, "%s := %s%s; %s", valName, elt, text(el), keep(valName))
+				} else {
+					fmt.Fprintf(&sb, "var %s %s = %s; %s", valName, elt, text(el), keep(valName))
+				}
+			}
+			sb.WriteString(text(rs.Body))
+			sb.WriteString(" }; ")
+		}
+		sb.WriteString("}")
+		edits = append(edits, edit{off(rs.Pos()), off(rs.End()), sb.String()})
+		if drop != nil {
+			edits = append(edits, edit{off(drop.Pos()), off(drop.End()), ""})
+		}
+		counts["unrolled range over a "+fmt.Sprint(len(lit.Elts))+"-element literal"]++
+		n++
+		return false
+	})
 	if n == 0 {
 		return src, 0
 	}
